@@ -71,7 +71,9 @@ def gen_cases(tier: str, seed: int):
             t = r.choice(TABS)
             x = r.random()
             if x < 0.28:
-                steps.append(["create_table", db, sc, t, _cols(r), r.choice([None, None, "c1", "it''s a comment", "c2"]), r.random() < 0.3, r.random() < 0.15])
+                rep = r.random() < 0.3
+                steps.append(["create_table", db, sc, t, _cols(r), r.choice([None, None, "c1", "it''s a comment", "c2"]), rep, r.random() < 0.15,
+                              (not rep) and r.random() < 0.3])
             elif x < 0.36:
                 db2, sc2 = r.choice(SCHEMAS)
                 steps.append([r.choice(["ctas", "clone"]), db, sc, t, db2, sc2, r.choice(TABS), r.random() < 0.4])
@@ -80,7 +82,10 @@ def gen_cases(tier: str, seed: int):
             elif x < 0.54:
                 steps.append(["add_column", db, sc, t, r.choice(COLN + ["F"]), r.choice(TNAMES)])
             elif x < 0.60:
-                steps.append(["drop_column", db, sc, t, r.choice(COLN)])
+                c = r.choice(COLN)
+                steps.append(["drop_column", db, sc, t, c])
+                if r.random() < 0.5:  # the same name comes back with another declaration
+                    steps.append(["add_column", db, sc, t, c, r.choice(TNAMES)])
             elif x < 0.66:
                 steps.append(["rename_column", db, sc, t, r.choice(COLN), r.choice(COLN + ["G"])])
             elif x < 0.74:
@@ -127,7 +132,20 @@ def _run(case: dict, env: core.Env, fs: Any) -> None:
         exists = key in model
         after: Any = None
         if op == "create_table":
-            _, db, sc, t, cols, comment, replace, pk = st
+            _, db, sc, t, cols, comment, replace, pk = st[:8]
+            ine = len(st) > 8 and st[8]
+            if exists and ine and model[key]["kind"] == "table":
+                # CREATE TABLE IF NOT EXISTS over an existing table: a no-op, whatever it declares
+                coldefs = ", ".join(f"{c} {ty}" for c, ty, _ in cols)
+                sql = f"CREATE TABLE IF NOT EXISTS {fq} ({coldefs})" + (f" COMMENT = '{comment}'" if comment is not None else "")
+                env.cover("op", "create_table_if_not_exists/exists")
+                out = core.run_stmt(cur, sql)
+                if not out["ok"]:
+                    env.witness(f"C09/rejected/create_table_if_not_exists/{out['exc']['cls']}", f"{sql}: {out['exc']}"[:600])
+                    return
+                _observe(env, {"DB1": conn, "DB2": obs}, model, f"step {si} {sql!r} (no-op)", "create_table_if_not_exists")
+                altered = True
+                continue
             if exists and not replace:
                 continue
             if exists and (model[key]["kind"] == "view" or _has_view_on(model, key)):
@@ -135,7 +153,7 @@ def _run(case: dict, env: core.Env, fs: Any) -> None:
             coldefs = ", ".join(f"{c} {ty}{' NOT NULL' if nn else ''}" for c, ty, nn in cols)
             if pk:
                 coldefs = coldefs.replace(f"{cols[0][0]} {cols[0][1]}", f"{cols[0][0]} {cols[0][1]} PRIMARY KEY", 1)
-            sql = f"CREATE {'OR REPLACE ' if replace else ''}TABLE {fq} ({coldefs})" + (f" COMMENT = '{comment}'" if comment is not None else "")
+            sql = f"CREATE {'OR REPLACE ' if replace else ''}TABLE {'IF NOT EXISTS ' if ine else ''}{fq} ({coldefs})" + (f" COMMENT = '{comment}'" if comment is not None else "")
             after = {"kind": "table", "cols": [[c, ty, bool(nn) or (pk and i == 0)] for i, (c, ty, nn) in enumerate(cols)],
                      "comment": comment.replace("''", "'") if comment is not None else None, "pk": cols[0][0] if pk else None}
         elif op in ("ctas", "clone"):
